@@ -19,6 +19,7 @@ type metadata struct {
 	valueType ds.ValueType
 	state     uint8
 	writeable bool
+	unlinked  bool // set under the key lock when the record is removed from the index
 }
 
 func newMetadata() *metadata {
